@@ -342,3 +342,13 @@ func (g *pg) memberName(pool []string, used nameSet, isField bool) string {
 	}
 	return name
 }
+
+// goPredeclared: identifiers a package-level type must not be called in generated code: Go's predeclared
+// identifiers and the import names the generated file uses.
+var goPredeclared = func() map[string]bool {
+	m := map[string]bool{}
+	for _, k := range strings.Fields("any bool byte comparable complex64 complex128 error float32 float64 int int8 int16 int32 int64 rune string uint uint8 uint16 uint32 uint64 uintptr true false iota nil append cap clear close complex copy delete imag len make max min new panic print println real recover json fmt graphql context time errors sup testutil bytes strings data err resp req client ctx v b dst src i") {
+		m[k] = true
+	}
+	return m
+}()
